@@ -67,7 +67,7 @@ def _cases(tier, rng):
         r2 = rng.choice(REWRITES + [None, None]) if rng.random() < 0.4 else None
         r3 = rng.choice(REWRITES) if r2 and rng.random() < 0.4 else None
         yield {"dag": d, "rewrites": [r for r in (r1, r2, r3) if r], "seed": rng.randrange(10**6),
-               "mutate": rng.choice((None, "update_defaults", "update_bound"))}
+               "mutate": rng.choice((None, "update_defaults", "update_bound", "update_defaults-on-new", "update_defaults-on-new"))}
     # compositions of three in which a combined function is renamed / scoped and the result rewritten again
     for _ in range(n // 20):
         d = dag.gen_dag(rng, rng.randint(2, 4))
@@ -420,6 +420,36 @@ def _check(case):
 
 def _independence(case, p, pipes, d, names, want, applied):
     bad = []
+    if case["mutate"] == "update_defaults-on-new":
+        # the other direction, through the ordinary (non-overwriting) update: a default changed on the NEW pipeline does
+        # not reach the original.  Observed on calls that leave the defaulted arguments out.
+        before = _eval_all([p], d, {}, omit_defaults=True)
+        changed = False
+        for q in pipes:
+            upd = {k: "MUTATED" for k in q.defaults if "." not in k}
+            if not upd:
+                continue
+            try:
+                q.update_defaults(upd)
+                changed = True
+            except Exception:  # noqa: BLE001
+                continue
+        if not changed:
+            return []
+        # (observed on the original itself and on a fresh copy of it: a copy made now must not pick up the change either)
+        after = _eval_all([p], d, {}, omit_defaults=True)
+        after2 = _eval_all([p.copy()], d, {}, omit_defaults=True)
+        for o in before:
+            a, b2 = before[o], after2.get(o)
+            if not isinstance(a, Exception) and not isinstance(b2, Exception) and a != b2:
+                bad.append(f"after {applied}: update_defaults on the NEW pipeline changed what a later copy of the ORIGINAL "
+                           f"computes for {o} (defaulted arguments left out): {a!r} -> {b2!r}")
+        for o in before:
+            a, b = before[o], after.get(o)
+            if not isinstance(a, Exception) and not isinstance(b, Exception) and a != b:
+                bad.append(f"after {applied}: update_defaults on the NEW pipeline changed the ORIGINAL's {o} (defaulted "
+                           f"arguments left out): {a!r} -> {b!r}")
+        return bad
     before_new = _eval_all(pipes, d, names)
     if case["mutate"] == "update_defaults":
         dflt = dag.shared_defaults(d)
